@@ -10,12 +10,14 @@ PROP = {'gen': [],
                'forms)',
  'level_text': 'Coq theorem (C08_python_slice): for every axis length a usize can hold (also beyond i64::MAX), every selector form, every '
                'integer type and every bound of that type, the model of view_bounds equals Python slice resolution over unbounded '
-               'integers; hence the answer is absent or 0 <= start < end <= n (C08_range_model, about the model of the code) and '
-               'type-independent (C08_type_independent). The specification py_slice is itself characterised by element membership '
+               'integers; hence the answer is absent or 0 <= start < end <= n (C08_range_model, about the model of the code; C08_range '
+               'about the specification) and type-independent (C08_type_independent); a single index is absent exactly outside '
+               '[-n, n) (C08_index_absent). The specification py_slice is itself characterised by element membership '
                '(C08_spec_by_membership). Model tied to the code by a differential run over all ten types, seven forms, extreme '
                'bounds and axis lengths up to usize::MAX (plus an exhaustive small sweep).',
- 'level_note': 'Trusted: Coq kernel; hand-written model of range_bounds/index_i128/casts validated by correspondence; 64-bit target. '
-               'No axioms.',
+ 'level_note': 'Trusted: Coq kernel; hand-written model of range_bounds/index_i128/casts validated by correspondence; py_slice as the '
+               'reading of Python slicing (step 1); 64-bit target. Defects found and fixed: six slips at extreme bounds (fix b134c42), '
+               'axes longer than i64::MAX resolved in i64 and type-dependent (fix 3c25d1b). No open known finding. No axioms.',
  'technique': 'Coq proof (case analysis + lia against a Python-slice specification over Z) + model/implementation correspondence',
  'design_ref': 'DESIGN.md 6.8',
  'n_quick': 3000,
